@@ -13,7 +13,7 @@ sys.path.insert(0, os.path.dirname(os.path.abspath(__file__)))
 from fractions import Fraction as F
 import gen_cases as G
 from gen_cases import Rng, hexd, unhex, PARAM0
-import gen_lean, runner, build_harness, oracles, props
+import gen_lean, gen_rates, runner, build_harness, oracles, props
 
 VERIF = os.path.dirname(os.path.dirname(os.path.abspath(__file__)))
 LEAN = os.path.join(VERIF, "lean")
@@ -147,6 +147,13 @@ def main():
         trans_err = str(e)
         ros = be = lits = errs = None
     env = {"ros": ros, "be": be, "lits": lits, "errs": errs}
+    # rate-constant formulas (C15): regenerated from the headers; a formula the grammar no longer reads is a broken
+    # obligation of C15 only (the previous generated file stays in place for the other checks)
+    rates_err = None
+    try:
+        gen_rates.write()
+    except gen_lean.TranslatorError as e:
+        rates_err = str(e)
 
     # 2. proofs
     obl = {"ok": False, "theorems": [], "errors": []}
@@ -156,6 +163,9 @@ def main():
         obl = {"ok": True, "theorems": [], "errors": []}
     else:
         obl = lean_obligations(pid, tier)
+    if rates_err and pid == "C15":
+        obl["ok"] = False
+        obl["errors"].append("translator (rate-constant formulas): " + rates_err)
     broken_obligation = not obl["ok"]
 
     # 3. harness + cases
